@@ -42,6 +42,19 @@ Theorem C19_read_header : forall s,
 Proof. exact read_header_spec. Qed.
 Print Assumptions C19_read_header.
 
+(* ... and independently of how the transport fragments the bytes: io.ReadFull over a connection
+   that delivers the stream in arbitrary pieces (one piece, or less, per Read; empty pieces
+   allowed) yields the header of the concatenation *)
+Theorem C19_read_header_fragmentation : forall chunks,
+  read_header_chunks chunks = read_header (concat chunks).
+Proof. exact read_header_chunks_concat. Qed.
+Print Assumptions C19_read_header_fragmentation.
+
+Theorem C19_read_header_fragmentation_indep : forall chunks chunks',
+  concat chunks = concat chunks' -> read_header_chunks chunks = read_header_chunks chunks'.
+Proof. exact read_header_chunks_indep. Qed.
+Print Assumptions C19_read_header_fragmentation_indep.
+
 (* encoding inverts decoding: whatever MarshalBinary/WriteTo accept (with a version that fits
    the 3-bit field) decodes to the same header ... *)
 Theorem C19_roundtrip_encode_decode : forall h b, wf_hdr h -> h_ver h < 8 ->
@@ -133,6 +146,9 @@ Proof. vm_compute. reflexivity. Qed.
 Example C19_example_field : field 3 3 [228; 62; 0; 0; 0; 10; 1; 2; 3; 4] = 1
   /\ field 6 10 [228; 62; 0; 0; 0; 10; 1; 2; 3; 4] = 62.
 Proof. vm_compute. split; reflexivity. Qed.
+Example C19_example_fragmented :
+  read_header_chunks [[228; 62; 0]; []; [0; 0; 10; 1]; [2; 3; 4; 99]] = HOk (mkHdr 1 62 0 16909060).
+Proof. vm_compute. reflexivity. Qed.
 Example C19_example_rejected : hdr_decode [4; 62; 0; 0; 0; 9; 0; 0; 0; 0] = HErr ErrLenBelowHeader.
 Proof. vm_compute. reflexivity. Qed.
 Example C19_example_refused : hdr_encode (mkHdr 1 950 0 0) = None /\ hdr_encode (mkHdr 1 1024 0 0) = None
